@@ -19,8 +19,14 @@ TEST = "TestVerifC10"
 CFG_KEYS = ("ss", "pos", "bat", "rwq")
 
 
+# set by probe_offset0_check(): does the implementation check flagSubscribed on the offset-0 publication
+# path?  (the model's switch `offset0Checked`; "model the code that exists")
+FIX = {"offset0Checked": False}
+
+
 def cfg_str(cfg):
-    return " ".join(f"{k}={int(bool(cfg[k]))}" for k in CFG_KEYS) + " serial=1"
+    return " ".join(f"{k}={int(bool(cfg[k]))}" for k in CFG_KEYS) + " serial=1" + \
+        (" fix=1" if FIX["offset0Checked"] else "")
 
 
 def run_line(cfg, labels):
@@ -29,6 +35,7 @@ def run_line(cfg, labels):
 
 def parse_run(op):
     head, _, tail = op.partition("|")
+    tail = tail.partition(";")[0]
     cfg = {}
     for w in head.split()[1:]:
         k, _, v = w.partition("=")
@@ -36,14 +43,36 @@ def parse_run(op):
     return {k: cfg.get(k, False) for k in CFG_KEYS}, tail.split()
 
 
+def fields(line):
+    return dict(w.split("=", 1) for w in line.split() if "=" in w)
+
+
 def parse_out(line):
-    """-> (tokens, live) or None when the line is not a normal result"""
+    """-> (tokens, live) or None when the line is not a normal result.  For a scenario the harness stopped
+    because the parked actors differed from the model's (`diverged=`), the tokens are the frames after all
+    parked actors were released in key order (`final=`): still a schedule of the real code."""
     if not line.startswith("frames="):
         return None
-    fr, _, lv = line.partition(" live=")
-    toks = [t for t in fr[len("frames="):].split(",") if t]
-    live = [t for t in lv.split(",") if t]
+    f = fields(line)
+    toks = [t for t in f.get("final", f.get("frames", "")).split(",") if t]
+    live = [t for t in f.get("live", "").split(",") if t]
     return toks, live
+
+
+def core(line):
+    """frames/live part of an output line (the model's `trail=` is the expectation handed to the harness)"""
+    if not line.startswith("frames="):
+        return line
+    f = fields(line)
+    out = f"frames={f.get('frames', '')} live={f.get('live', '')}"
+    if "diverged" in f:
+        out += f" diverged={f['diverged']}"
+    return out
+
+
+def with_exp(op, model_line):
+    tr = fields(model_line).get("trail") if model_line.startswith("frames=") or "trail=" in model_line else None
+    return op if tr is None else op + " ; exp=" + tr
 
 
 def strip_ids(line):
@@ -248,21 +277,32 @@ def run(ctx):
                       no_input=True)
         return
     R = Runner(ctx, binary)
+    # regenerate the model's switch from the code: replay the C10-1 schedule on the implementation
+    probe = R.impl(["run ss=0 pos=0 bat=0 rwq=0 serial=1 | S S B:p:1 B:p:1"])
+    pp = parse_out(probe[0]) if probe else None
+    if pp is not None:
+        FIX["offset0Checked"] = not any(t.startswith("P0") for t in pp[0]) and not any(
+            a.startswith("B:") for a in pp[1])
+    ctx.extra["model_switch_offset0Checked"] = FIX["offset0Checked"]
+    if FIX["offset0Checked"]:
+        ctx.notes.append("implementation checks flagSubscribed on the offset-0 path: model run with offset0Checked=true")
 
     # ---- schedules
     if ctx.replay:
-        run_ops = json.load(open(ctx.replay)).get("ops", [])
-        expected = R.model(run_ops)
+        run_ops = [op.partition(";")[0].strip() for op in json.load(open(ctx.replay)).get("ops", [])]
+        pm = R.model(run_ops)
+        run_ops = [with_exp(op, m) for op, m in zip(run_ops, pm)]
+        expected = [core(m) for m in pm]
     else:
         corpus = [l.strip() for l in open(os.path.join(VERIF, "props/C10/corpus.ops"))
                   if l.strip() and not l.startswith("#")]
         known_ops = [op for e in local_findings() for op in (e.get("replay") or {}).get("ops", [])]
         gens = gen_ops(ctx, ctx.scale(400, 12000))
         gout = R.model(gens)
-        run_ops, expected = [], []
-        for op in known_ops + corpus:
-            run_ops.append(op)
-        expected = R.model(run_ops)
+        plain = known_ops + corpus
+        pm = R.model(plain)
+        run_ops = [with_exp(op, m) for op, m in zip(plain, pm)]
+        expected = [core(m) for m in pm]
         for g, o in zip(gens, gout):
             if not o.startswith("labels="):
                 ctx.notes.append("driver gen failed: " + o[:80])
@@ -270,8 +310,8 @@ def run(ctx):
             labs, _, rest = o.partition(" ")
             labels = [l for l in labs[len("labels="):].split(",") if l]
             cfg, _ = parse_run(g)
-            run_ops.append(run_line(cfg, labels))
-            expected.append(rest)
+            run_ops.append(with_exp(run_line(cfg, labels), rest))
+            expected.append(core(rest))
     ctx.log(f"{len(run_ops)} schedules generated")
     impl = R.impl(run_ops)
     ctx.log("implementation runs done")
@@ -334,7 +374,7 @@ def run(ctx):
     # ---- correspondence model vs implementation
     ctx.traces_validated = len(run_ops)
     ndiff = 0
-    for i, op, a, b in diff_lines(run_ops, impl, expected):
+    for i, op, a, b in diff_lines(run_ops, [core(x) for x in impl], expected):
         if not a.startswith("frames="):
             continue            # harness error: dropped and counted above, never a violation
         ndiff += 1
